@@ -64,7 +64,8 @@ class TransmissionWatcher(LoggingTrait, WithObservers):
                     f"TransmissionWatcher.process_burst ignoring {burst.__class__.__name__} with target radio id {burst.target_radio_id}"
                 )
                 self.log_warning(repr(burst))
-                return None
+            # no terminal has radio id 0, IPSC sync / wakeup without target are dropped silently
+            return None
         self.ensure_terminal(burst.target_radio_id)
         return self.terminals[burst.target_radio_id].process_incoming_burst(
             burst=burst, timeslot=burst.timeslot
